@@ -18,8 +18,8 @@ variable {Scheme Data Val : Type} (W : World Scheme Data Val) (ps sc : Nat)
 for `Load` the files; for `GetDescriptors` the library's scheme (the files it was loaded from) and the molecule; for
 `Estimate` the library data (files and merges) and the descriptor mapping; for an evaluation the library data at
 creation and now, the mapping, the temperature and the quantity — and, only if the elemental reference is requested,
-the molecule name the estimate remembered (see T3); for `Update` the two libraries' data.  Handles of new objects are
-erased.  `f1Safe`: F1 (`Estimate` before any `GetDescriptors` raises `AttributeError`) is excluded unless repaired. -/
+the molecule name the estimate remembered (see T3); for `Update` the two libraries' data (the output: the error class if it is refused, and the destination's data afterwards —
+unchanged if it is refused).  Handles of new objects are erased.  `f1Safe`: F1 (`Estimate` before any `GetDescriptors` raises `AttributeError`) is excluded unless repaired. -/
 theorem C15_output_depends_on_declared_inputs (h : List Op) (op : Op) (dcl : Decl)
     (hd : declared (after W (init ps sc : State Scheme Data) h) op = some dcl)
     (hf : f1Safe W (after W (init ps sc : State Scheme Data) h) op) :
@@ -61,57 +61,79 @@ theorem C15_data_changes_only_by_merge (s : State Scheme Data) (h : List Op) (i 
   obtain ⟨l', h1, h2, _, h4, h5⟩ := after_lib_unmerged W s h i l hl (fun src ow hmem => hm ⟨src, ow, hmem⟩)
   exact ⟨l', h1, h2, h4, h5⟩
 
-/-! ### A merge that is refused (added after the fourth seeded round; finding FA1)
+/-! ### A merge that is refused (finding FA1, repaired)
 
-`mergeF` is a parameter: what `GroupLibrary.Update` leaves in the destination when it raises is not fixed by the model (it
-mirrors the code, where the groups merged before the error stay).  What the property needs of it — a library that merely
-attempted a merge is the library it was — is the hypothesis `MergeAtomic`; the harness checks it on the real `Update`
-(`rejected_merge` in harness/c15.py) and classifies the known way in which it fails. -/
+Since the repair `GroupLibrary.Update` is all-or-nothing (it finds out on copies whether every group merges before it stores
+anything; `PGA.Merge.C13_libUpdate_atomic` proves that of the model of the method).  The state machine mirrors it: a merge is
+refused (`mergeF … = .error c`) *or* yields the destination's new data.  The harness checks the real `Update` against this
+on every refused merge of every history (`rejected_merge` in harness/c15.py: per-group digests and the uncertainty block
+before and after). -/
 
-/-- a world whose merge is failure-atomic: a refused `Update` hands the destination's data back unchanged -/
-def MergeAtomic (W : World Scheme Data Val) : Prop :=
-  ∀ a b ow, (W.mergeF a b ow).2 ≠ none → (W.mergeF a b ow).1 = a
+/-- the merge `dst.Update(src, overwrite)` is refused in state `s` -/
+def refusedIn (W : World Scheme Data Val) (s : State Scheme Data) (dst src : Nat) (ow : Bool) : Prop :=
+  ∃ a b c, s.libs[dst]? = some a ∧ s.libs[src]? = some b ∧ W.mergeF a.data b.data ow = .error c
 
-/-- the statement one would like for every world: a merge that is refused changes no library's data -/
-def C15_rejected_merge_full (W : World Scheme Data Val) : Prop :=
+/-- **T2 for a refused merge, full statement** (every world, any state): a merge that raises changes nothing at all — no
+library's data, provenance or remembered name (the destination's included), no estimate, no registry: the state afterwards
+*is* the state before; the output is the error class and the destination's data as they were. -/
+theorem C15_rejected_merge_full (s : State Scheme Data) (dst src : Nat) (ow : Bool) (a b : Lib Scheme Data)
+    (ha : s.libs[dst]? = some a) (hb : s.libs[src]? = some b) (c : Code) (hrej : W.mergeF a.data b.data ow = .error c) :
+    step W s (.merge dst src ow) = (s, .merged a.data (some c)) :=
+  step_merge_refused W s dst src ow a b ha hb c hrej
+
+/-- **T2 for a refused merge, library by library** (the form the statement had while it needed a hypothesis on the world):
+a merge that raises changes no library's data. -/
+theorem C15_rejected_merge_frame (s : State Scheme Data) (dst src : Nat) (ow : Bool) (hrej : refusedIn W s dst src ow)
+    (i : Nat) (l : Lib Scheme Data) (hl : s.libs[i]? = some l) :
+    ∃ l' : Lib Scheme Data, (step W s (.merge dst src ow)).1.libs[i]? = some l' ∧ l'.data = l.data ∧ l'.prov = l.prov := by
+  obtain ⟨a, b, c, ha, hb, hm⟩ := hrej
+  rw [C15_rejected_merge_full W s dst src ow a b ha hb c hm]
+  exact ⟨l, hl, rfl, rfl⟩
+
+/-- **A library that merely attempted a merge is a library that did nothing**: a refused merge anywhere in a history can
+be deleted — the final state and the outputs of all later operations are those of the history without it. -/
+theorem C15_refused_merge_invisible (s : State Scheme Data) (h₁ h₂ : List Op) (dst src : Nat) (ow : Bool)
+    (hrej : refusedIn W (after W s h₁) dst src ow) :
+    after W s (h₁ ++ .merge dst src ow :: h₂) = after W s (h₁ ++ h₂) ∧
+    (run W (after W s h₁) (.merge dst src ow :: h₂)).2.tail = (run W (after W s h₁) h₂).2 := by
+  obtain ⟨a, b, c, ha, hb, hm⟩ := hrej
+  have hs := C15_rejected_merge_full W (after W s h₁) dst src ow a b ha hb c hm
+  constructor
+  · rw [after_append, after_append, after_cons, hs]
+  · simp only [run, hs, List.tail_cons]
+
+/-- the per-library statement about the merge step as it was before the repair (`stepMergeOld`: `mergeOld` yields the
+destination's data afterwards also when it raises) -/
+def C15_rejected_merge_old_full (mergeOld : Data → Data → Bool → Data × Option Code) : Prop :=
   ∀ (s : State Scheme Data) (dst src : Nat) (ow : Bool) (a b : Lib Scheme Data),
-    s.libs[dst]? = some a → s.libs[src]? = some b → (W.mergeF a.data b.data ow).2 ≠ none →
+    s.libs[dst]? = some a → s.libs[src]? = some b → (mergeOld a.data b.data ow).2 ≠ none →
     ∀ (i : Nat) (l : Lib Scheme Data), s.libs[i]? = some l →
-      ∃ l' : Lib Scheme Data, (step W s (.merge dst src ow)).1.libs[i]? = some l' ∧ l'.data = l.data
+      ∃ l' : Lib Scheme Data, (stepMergeOld (Val := Val) mergeOld s dst src ow).1.libs[i]? = some l' ∧ l'.data = l.data
 
-/-- **T2 for a refused merge**: in a world whose merge is failure-atomic, a merge that raises changes no library's data
-(the destination's included), from any state. -/
-theorem C15_rejected_merge_frame (hW : MergeAtomic W) : C15_rejected_merge_full W := by
-  unfold C15_rejected_merge_full
-  intro s dst src ow a b ha hb hrej i l hl
-  have hlt : dst < s.libs.length := (List.getElem?_eq_some_iff.mp ha).1
-  simp only [step, ha, hb]
-  by_cases hi : dst = i
-  · subst hi
-    have hla : l = a := by rw [ha] at hl; exact (Option.some.inj hl).symm
-    subst hla
-    exact ⟨_, List.getElem?_set_self hlt, hW _ _ _ hrej⟩
-  · exact ⟨l, by rw [List.getElem?_set_ne hi]; exact hl, rfl⟩
-
-/-- a world whose merge keeps what it took over before it raised (what `GroupLibrary.Update` does: finding FA1) -/
-def leakyWorld : World Unit Nat Nat :=
-  { env := 0, f1Fixed := true, loadF := fun _ _ _ L => .ok ((), L), decompF := fun _ m => .ok m, estF := fun _ _ _ => none,
-    evalF := fun _ now _ _ _ _ => .ok now, mergeF := fun a b _ => (a + b, some 0) }
-
-/-- without that hypothesis the statement fails: two libraries, one refused merge, the destination's data have changed -/
-theorem C15_rejected_merge_full_false : ¬ C15_rejected_merge_full leakyWorld := by
+/-- **FA1 on the model.** For the method as it was — a merge that keeps what it took over before it raised (BensonGA after
+the refused `Update(GRWSurface2018)` held 210 groups instead of 208) — the statement fails: two libraries, one refused
+merge, the destination's data have changed. -/
+theorem C15_rejected_merge_old_fails :
+    ¬ C15_rejected_merge_old_full (Scheme := Unit) (Data := Nat) (Val := Nat) (fun a b _ => (a + b, some 0)) := by
   intro h
-  unfold C15_rejected_merge_full at h
   let s : State Unit Nat := { libs := [⟨(), 1, none, 0, .loaded 0⟩, ⟨(), 2, none, 1, .loaded 1⟩], ests := [], datadir := none, propsets := 0, schemas := 0 }
-  obtain ⟨l', h1, h2⟩ := h s 0 1 false ⟨(), 1, none, 0, .loaded 0⟩ ⟨(), 2, none, 1, .loaded 1⟩ rfl rfl (by simp [leakyWorld]) 0 _ rfl
-  simp [step, s, leakyWorld] at h1
+  obtain ⟨l', h1, h2⟩ := h s 0 1 false ⟨(), 1, none, 0, .loaded 0⟩ ⟨(), 2, none, 1, .loaded 1⟩ rfl rfl (by simp) 0 _ rfl
+  simp [stepMergeOld, s] at h1
   subst h1
   simp at h2
 
-/-- non-vacuity: a world that merges with `overwrite` and refuses without, leaving the destination alone -/
-example : MergeAtomic ({ leakyWorld with mergeF := fun a b ow => if ow then (a + b, none) else (a, some 0) } : World Unit Nat Nat) := by
-  intro a b ow h
-  cases ow <;> simp_all
+/-- a world that merges with `overwrite` and refuses without -/
+def refusingWorld : World Unit Nat Nat :=
+  { env := 0, f1Fixed := true, loadF := fun _ _ _ L => .ok ((), L), decompF := fun _ m => .ok m, estF := fun _ _ _ => none,
+    evalF := fun _ now _ _ _ _ => .ok now, mergeF := fun a b ow => if ow then .ok (a + b) else .error 0 }
+
+/-- non-vacuity: after two loads the merge without `overwrite` is refused (and the one with `overwrite` is not: it changes
+the destination's data to 3 + 5) -/
+example : refusedIn refusingWorld (after refusingWorld (init 0 0) [.load 3 false, .load 5 false]) 0 1 false :=
+  ⟨⟨(), 3, none, 3, .loaded 3⟩, ⟨(), 5, none, 5, .loaded 5⟩, 0, rfl, rfl, rfl⟩
+example : ((after refusingWorld (init 0 0 : State Unit Nat) [.load 3 false, .load 5 false, .merge 0 1 false, .merge 0 1 true]).libs.map (·.data)) = [8, 5] := rfl
+example : ((after refusingWorld (init 0 0 : State Unit Nat) [.load 3 false, .load 5 false, .merge 0 1 false]).libs.map (·.prov)) = [.loaded 3, .loaded 5] := rfl
+
 /-- **T2**: an estimate, once made, is never changed (its captured name, snapshot and mapping). -/
 theorem C15_frame_estimate (s : State Scheme Data) (h : List Op) (e : Nat) (est : Est Data) (he : s.ests[e]? = some est) :
     (after W s h).ests[e]? = some est :=
@@ -172,7 +194,7 @@ def witnessWorld : World Nat Nat Nat where
   decompF := fun _ m => .ok m
   estF := fun _ _ _ => none
   evalF := fun _ _ _ _ _ el => .ok (match el with | some (some m) => m | _ => 0)
-  mergeF := fun a _ _ => (a, none)
+  mergeF := fun a _ _ => .ok a
 
 /-- load; decompose A (=1); decompose B (=2); estimate from A's mapping -/
 def witnessHistory : List Op := [.load 0 false, .decompose 0 1, .decompose 0 2, .estimate 0 1 1]
